@@ -97,6 +97,9 @@ def run_unit(unit, progress):
             # another one: a task reached twice in one traversal is unblocked in between by a sibling's item.value()
             prog = gen.revisit_program(random.Random(cs))
             inc("revisit_programs")
+        elif i % 16 == 12:
+            prog = gen.overlap_program(random.Random(cs))
+            inc("overlap_programs")
         elif i % 16 == 4:
             # one cached error object raised by several children and caught again and again by one running body
             prog = gen.recatch_program(random.Random(cs), leafs=("none", "const", "item", "item"))
